@@ -22,7 +22,7 @@ pub struct Call {
 pub type History = Vec<Call>;
 pub struct C14;
 
-pub const NFUNCS: u8 = 8;
+pub const NFUNCS: u8 = 10;
 /// one public call, result rendered as a string
 pub fn perform(lg: &Language, c: &Call) -> String {
     // a panic is C03's business; here it is just another (comparable) outcome
@@ -53,6 +53,12 @@ fn perform_inner(lg: &Language, c: &Call) -> String {
             format!("{:?}", lg.exec_group(lower.split_whitespace()).map(|b| (b.to_string(), b.flags, format!("{:?}", b.marker))))
         }
         6 => format!("{:?}", annotated(&c.text, lg).iter().map(|t| t.nan).collect::<Vec<_>>()),
+        // a lazy search abandoned after its first / second result (the iterator is dropped mid-stream)
+        8 | 9 => {
+            let t = tokens_of(&c.text);
+            let k = (c.f % NFUNCS - 7) as usize;
+            format!("{:?}", occs(find_numbers_iter(t.iter(), lg, th).take(k).collect()))
+        }
         _ => format!("{:?}", get_interpreter_for(&c.lang).map(|l| replace_numbers_in_text(&c.text, &l, th))),
     }
 }
@@ -132,7 +138,7 @@ impl Property for C14 {
         "C14"
     }
     fn rule(&self) -> String {
-        "History independence (generated, shrinkable): histories of 4..300 public calls (text2digits, replace_numbers_in_text, find_numbers on annotated tokens, find_numbers_iter, replace_numbers_in_stream, exec_group, basic_annotate, get_interpreter_for+rewrite) drawn from a pool of 2..12 distinct calls over all seven languages, clean/dirty sentences and speller phrases, any threshold, repeated and interleaved on ONE set of shared interpreters; every result must equal the result of the same call on a freshly constructed interpreter. Sharing across threads (whole-run procedure): 16 threads share one &Language per language and replay generated call lists concurrently; every result must equal the single-threaded result on a fresh interpreter. Type level: a separate crate asserts Language and the seven concrete types are Send + Sync + 'static (./check C14 builds it first). Silence: the harness re-executes itself as a child with stdout and stderr piped; the child runs a workload through every public function that covers the spellings of all n < 2000, all scale words, ordinals < 200 in every inflection, decimals, every vocabulary word, and 20 000 generated calls; both pipes must stay empty. Non-trivial = distinct histories with >= 2 languages and a repeated call after a different call.".into()
+        "History independence (generated, shrinkable): histories of 4..300 public calls (text2digits, replace_numbers_in_text, find_numbers on annotated tokens, find_numbers_iter drained, find_numbers_iter abandoned after its first or second result, replace_numbers_in_stream, exec_group, basic_annotate, get_interpreter_for+rewrite) drawn from a pool of 2..12 distinct calls over all seven languages, clean/dirty sentences and speller phrases, any threshold, repeated and interleaved on ONE set of shared interpreters; every result must equal the result of the same call on a freshly constructed interpreter. Sharing across threads (whole-run procedure): 16 threads share one &Language per language and replay generated call lists concurrently; every result must equal the single-threaded result on a fresh interpreter. Type level: a separate crate asserts Language and the seven concrete types are Send + Sync + 'static (./check C14 builds it first). Silence: the harness re-executes itself as a child with stdout and stderr piped; the child runs a workload through every public function that covers the spellings of all n < 2000, all scale words, ordinals < 200 in every inflection, decimals, every vocabulary word, and 20 000 generated calls; both pipes must stay empty. Non-trivial = distinct histories with >= 2 languages and a repeated call after a different call.".into()
     }
     fn assumptions(&self) -> Vec<String> {
         vec![
